@@ -207,6 +207,9 @@ func (w *World) enabled(now time.Duration) []Action {
 			if r.Write {
 				mode = "W"
 			}
+			if r.Yield {
+				mode = "resume-after-release"
+			}
 			acts = append(acts, Action{Label: "grant " + mode + " " + r.Role + " @" + r.Site, Req: r, Do: func() { w.Sched.Grant(r) }})
 		}
 	}
